@@ -20,8 +20,7 @@ theorem round_chop (p : Parser) (h : ¬ (Marked p ∧ ¬ Fold (bpOf p))) : round
 /-- no complete line in these bytes -/
 def NoLine (b : List Byte) : Prop := eolR b = none ∨ ∃ e, eolR b = some e ∧ e ≥ b.length
 
-theorem rest_stashRest (p : Parser) (s : Bool) : rest (stashRest p s).1 = rest p := by
-  unfold rest; rw [stashRest_buf, stashRest_bix]
+theorem noLine_nil : NoLine [] := Or.inl eolR_nil
 
 theorem round_spec (p : Parser) (A : Abs) (h : Pre p A) (hne : rest p ≠ []) :
     (flatNext p A.ins = none ∧ Post (round p).1 (runA A (rest p)) ∧ (runA A (rest p)).ins = A.ins ∧
@@ -76,7 +75,7 @@ theorem round_spec (p : Parser) (A : Abs) (h : Pre p A) (hne : rest p ≠ []) :
       have hl := eolR_none _ _ (Nat.le_refl _) he
       have hs := stash_spec _ A1 h1 hp1 false hl
       rw [chopR_stash0 _ he]
-      exact ⟨rfl, hs.1, hs.2, by rw [rest_stashRest]; exact Or.inl he⟩
+      exact ⟨rfl, hs.1, hs.2, by rw [hs.1.done]; exact noLine_nil⟩
     | some e =>
       by_cases hge : e ≥ (rest (preChop p)).length
       · left
@@ -86,7 +85,7 @@ theorem round_spec (p : Parser) (A : Abs) (h : Pre p A) (hne : rest p ≠ []) :
           have := hs0.1; rw [List.take_of_length_le hge] at this; exact this
         have hs := stash_spec _ A1 h1 hp1 true hl
         rw [chopR_stash1 _ e he hge]
-        exact ⟨rfl, hs.1, hs.2, by rw [rest_stashRest]; exact Or.inr ⟨e, he, hge⟩⟩
+        exact ⟨rfl, hs.1, hs.2, by rw [hs.1.done]; exact noLine_nil⟩
       · right
         exact line_spec _ A1 h1 hp1 e he (by omega)
 
